@@ -511,6 +511,16 @@ func (c *FnCtx) byContract(ct *Contract, sig *types.Signature, args []Value, st 
 			c.oblige(st, "pre", cond, pos, fmt.Sprintf("precondition %d of %s: %s", k, short, rq.Text))
 		}
 	}
+	if ct == c.contract && c.ghost == 0 {
+		// recursive call (lemmas by induction): the variant decreases and is bounded below
+		if ct.Dec == nil || c.topDec == nil {
+			c.unsupported("recursive call of %s without a `decreases` clause at %s", short, pos)
+		} else if dfn := c.lookupSynthetic(ct.PkgPath, ct.Dec.FnName); dfn != nil {
+			if d, ok := c.evalGhost(dfn, args, st.clone(), nil).(*Term); ok {
+				c.oblige(st, "variant", f.And(f.Le(f.Int(0), d), f.Lt(d, c.topDec)), pos, "recursive call: variant decreases and stays non-negative: "+ct.Dec.Text)
+			}
+		}
+	}
 	pre := st.clone()
 	// frame
 	locs := c.collectAssigns(ct, args, st)
@@ -822,10 +832,16 @@ func (fr *frame) vspecIntrinsic(x *ssa.Call, name string, fn *ssa.Function, args
 		if i == nil {
 			i = f.BoundVar("i", SInt)
 		}
+		if lo.ival != nil && hi.ival != nil && i.lo == nil && i.hi == nil {
+			// the body is only ever used under lo <= i < hi: constant bounds feed the interval analysis
+			f.SetRange(i, lo.ival, new(big.Int).Sub(hi.ival, big.NewInt(1)))
+		}
 		tmp := st.clone()
 		tmp.P = f.True()
 		c.ghost++
+		c.inQuant++
 		res, out := c.exec(cfn, []Value{i}, binds, tmp)
+		c.inQuant--
 		c.ghost--
 		body, ok := res.(*Term)
 		if !ok || out == nil {
@@ -839,6 +855,28 @@ func (fr *frame) vspecIntrinsic(x *ssa.Call, name string, fn *ssa.Function, args
 			c.assume(st, f.Forall([]*Term{i}, f.Implies(rng, lp)))
 		}
 		if name == "Forall" {
+			// forall i (R(i) => forall j (S(i,j) => B(i,j))) is stated as one quantifier over (i, j) whose
+			// patterns are those of the inner one when they mention i: the solvers do not instantiate
+			// the outer variable of a nested quantifier reliably.
+			if body.op == "forall" && len(body.args) == 1 && body.args[0].op == "=>" && len(body.qvars) >= 1 {
+				inner := body.args[0]
+				var pats [][]*Term
+				for _, p := range body.pats {
+					ok := false
+					for _, t := range p {
+						if f.mentions(t, i) {
+							ok = true
+						}
+					}
+					if ok {
+						pats = append(pats, p)
+					}
+				}
+				if len(pats) > 0 {
+					vars := append([]*Term{i}, body.qvars...)
+					return f.Forall(vars, f.Implies(f.And(rng, inner.args[0]), inner.args[1]), pats...), true
+				}
+			}
 			return f.Forall([]*Term{i}, f.Implies(rng, body), indexPatterns(body, i)...), true
 		}
 		return f.Exists([]*Term{i}, f.And(rng, body)), true
@@ -1120,6 +1158,19 @@ func init() {
 		c.oblige(st, "panic", c.f.Not(err), pos, "BytesOrPanic: no length prefix overflowed")
 		return c.bytesToFreshSlice(st, c.load(st, c.ghostLV("BuilderBytes", b)), "builder.bytes")
 	}
+	// Bytes: (written bytes, nil) unless a length prefix overflowed, then (nil, error)
+	extIntrinsics["(*"+cbPath+".Builder).Bytes"] = func(fr *frame, x *ssa.Call, args []Value, st *State, pos string) Value {
+		c := fr.c
+		f := c.f
+		b := args[0].(*Term)
+		c.nilCheck(st, b, pos)
+		errB := c.load(st, c.ghostLV("BuilderErr", b))
+		res := x.Call.Signature().Results()
+		ev, _ := c.freshValue(st, "builder.err", res.At(1).Type()).(*Term)
+		c.assume(st, f.Eq(f.Not(f.Eq(f.IfTyp(ev), f.Int(0))), errB))
+		sl := c.bytesToFreshSlice(st, c.load(st, c.ghostLV("BuilderBytes", b)), "builder.bytes")
+		return Tuple{f.Ite(errB, c.zeroOfSort(SSl, res.At(0).Type()), sl), ev}
+	}
 }
 
 // ghostLV returns the location of ghost field name (a `//@ spec ghost` function in vspec) of object ref.
@@ -1231,9 +1282,6 @@ func indexPatterns(body, i *Term) [][]*Term {
 			return
 		}
 		seen[t.id] = true
-		if t.op == "forall" || t.op == "exists" {
-			return
-		}
 		direct := false
 		for _, a := range t.args {
 			if a == i {
